@@ -139,8 +139,7 @@ func (h hostileReq) buildBody() (body []byte, mustRefuse bool, class string) {
 		// a complete, valid request object followed by more bytes: not a JSON text any more
 		return append(enc(base), h.Value...), true, "trailing-data"
 	case "raw":
-		var probe any
-		valid := json.Unmarshal(h.Raw, &probe) == nil
+		valid := json.Valid(h.Raw) // the JSON grammar decides, not whether Go can hold the value (1e700 is well-formed; F26)
 		if !valid {
 			return h.Raw, true, "raw-invalid-json"
 		}
